@@ -211,6 +211,16 @@ func runC08(p *Prog, r *Result) {
 	r.Rule("R08c", "sibling agreement Parse / StmtsSeq: same sequence reset, rune, next, statements, doHeredocs under err == nil", 2)
 	r.Rule("R08d", "every increment of openNodes/openBquotes/openBquoteDbls is followed by its decrement on every path to the exit", 4)
 
+	parser, printer := resetSpecs()
+	checkResetSpec(p, r, pkg, parser)
+	checkResetSpec(p, r, pkg, printer)
+
+	checkSiblingEntries(p, r, pkg)
+	checkCounters(p, r, pkg)
+}
+
+// resetSpecs returns the reset classification tables of Parser and Printer.
+func resetSpecs() (resetSpec, resetSpec) {
 	parser := resetSpec{
 		typeName: "Parser", optType: "ParserOption", ctor: "NewParser",
 		entries:  []string{"Parse", "StmtsSeq", "WordsSeq", "Document", "Arithmetic"},
@@ -231,11 +241,7 @@ func runC08(p *Prog, r *Result) {
 		beforeRead: map[string]string{"wroteSemi": "stmt() clears it at the start of every statement before any reader"},
 		freshInFn:  map[string]string{"tabsPrinter": "flushHeredocs assigns a fresh nested Printer before every use"},
 	}
-	checkResetSpec(p, r, pkg, parser)
-	checkResetSpec(p, r, pkg, printer)
-
-	checkSiblingEntries(p, r, pkg)
-	checkCounters(p, r, pkg)
+	return parser, printer
 }
 
 func checkResetSpec(p *Prog, r *Result, pkg *packages.Package, spec resetSpec) {
